@@ -303,7 +303,8 @@ Fixpoint lookup_hash (tbl : list (str * N)) (b : str) : option N :=
   end.
 
 Inductive case :=
-| CShard (by_ : bool) (set : list str) (n : N) (ls : list label) (tbl : list (str * N)) (obs : list bool)
+| CShard (by_ : bool) (set : list str) (n : N) (ls : list label) (tbl : list (str * N))
+         (obs_zlabels obs_labels : list bool)   (* MatchesZLabels / MatchesLabels for every shard index *)
 | CAnalyze (e : expr) (obs_shardable obs_by : bool) (obs_labels : list str)
 | CEval (e : qexpr) (D : vector) (n : N) (by_ : bool) (set : list str) (tbl : list (str * N))
         (unsharded : option vector) (shards : list (option vector)) (merged : option vector).
@@ -327,11 +328,12 @@ Definition same_result (a b : option vector) : bool :=
 
 Definition corr_ok (c : case) : bool :=
   match c with
-  | CShard by_ set n ls tbl obs =>
+  | CShard by_ set n ls tbl obs obs2 =>
       match lookup_hash tbl (shard_buf by_ set ls) with
       | None => false
       | Some _ =>
-          list_eqb Bool.eqb (map (fun i => matches (H_of tbl) by_ set n (N.of_nat i) ls) (seq 0 (N.to_nat n))) obs
+          let m := map (fun i => matches (H_of tbl) by_ set n (N.of_nat i) ls) (seq 0 (N.to_nat n)) in
+          list_eqb Bool.eqb m obs && list_eqb Bool.eqb m obs2
       end
   | CAnalyze e sh by_ ls =>
       let a := analyze e in
@@ -353,7 +355,9 @@ Definition count_true (l : list bool) : nat := length (filter (fun b => b) l).
 
 Definition pred_ok (c : case) : bool :=
   match c with
-  | CShard _ _ _ _ _ obs => Nat.eqb (count_true obs) 1
+  | CShard _ _ _ _ _ obs obs2 =>
+      (* each entry point puts the series on exactly one shard, and both on the same one *)
+      Nat.eqb (count_true obs) 1 && Nat.eqb (count_true obs2) 1 && list_eqb Bool.eqb obs obs2
   | CAnalyze e sh by_ ls => if sh then compatible (all_scopes e) by_ ls else true
   | CEval _ _ _ _ _ _ unsharded shards merged =>
       (* when the unsharded evaluation succeeds, every shard succeeds, the shard results together
